@@ -81,14 +81,16 @@ def check(run):
         n = core.write_cases(core.dedupe_histories(core.parse_cases(r["out"], tag="HIST")), cases)
         if n == 0:
             raise core.Inconclusive("no histories generated")
-        for sh in (False, True):
-            outp = os.path.join(run.work, "c14_histout_%d_%d.txt" % (mb, sh))
-            run.drive(binary, "TestC14Hist", env={"VERIF_CASES": cases, "VERIF_OUT": outp,
-                                                  "VERIF_CONF": json.dumps({"maxBytes": mb, "exp": 3, "storeHeaders": sh})}, timeout=1800)
+        # (storeHeaders, ownClock): the third variant runs the external-storage histories in a process in which nothing starts the clock
+        # shared through gofiber/utils -- what the middleware does must not depend on another component having started it
+        for sh, own in ((False, False), (True, False), (True, True)):
+            outp = os.path.join(run.work, "c14_histout_%d_%d_%d.txt" % (mb, sh, own))
+            conf = json.dumps({"maxBytes": mb, "exp": 3, "storeHeaders": sh, "ownClock": own})
+            run.drive(binary, "TestC14Hist", env={"VERIF_CASES": cases, "VERIF_OUT": outp, "VERIF_CONF": conf}, timeout=1800)
             viol, samples, summary = summary_of(outp)
             if summary is None or summary["histories"] != n:
                 raise core.Inconclusive("history driver did not finish")
-            viol = run.confirm(binary, "TestC14Hist", {"VERIF_CONF": json.dumps({"maxBytes": mb, "exp": 3, "storeHeaders": sh})}, viol, "hist_%d_%d" % (mb, sh))
+            viol = run.confirm(binary, "TestC14Hist", {"VERIF_CONF": conf}, viol, "hist_%d_%d_%d" % (mb, sh, own))
             for v in viol:
                 run.violation(v)
             for s in samples[:1]:
@@ -104,7 +106,7 @@ def check(run):
                 "requests on the real middleware over a gated external storage (quick: first 500 schedules per scenario), each execution validated by TLC "
                 "against Cache.tla with NoCorruption/Accounting/Bounded/HeldBounded/Tracked/HitCorrect at every step; deadlocks and panics are reported by the "
                 "scheduler; (c) TLC-simulated timed histories (no-cache, no-store, invalidation, uncacheable statuses, eviction, expiry) replayed on memory and "
-                "external storage, with and without StoreResponseHeaders (status, body, content type, content encoding, X-Cache; with the option also a custom and a "
+                "external storage, with and without StoreResponseHeaders, and on external storage in a process where nothing starts the shared gofiber/utils clock (status, body, content type, content encoding, X-Cache; with the option also a custom and a "
                 "multi-valued origin header on hits). Non-trivial = schedules + history hits.")
     run.extra.update(dict(tot))
     run.extra["violations_by_check"] = dict(collections.Counter(v["check"] for v in run.violations))
